@@ -359,7 +359,7 @@ def ivp_solver(fftpq, profiles, z, levels, Lx, Ly):
         dzi = dz[i]
 
         a = 1.0 - 0.5 * Kzinv * Ti * dzi**2
-        b = -Kzinv * dzi - 1.0 / 6.0 * Kzinv**2 * Ti * dzi**3
+        b = -Kzinv * dzi + 1.0 / 6.0 * Kzinv**2 * Ti * dzi**3
         c = Ti * dzi - 1.0 / 6.0 * Kzinv * Ti**2 * dzi**3
         d = 1.0 - 0.5 * Kzinv * Ti * dzi**2
 
